@@ -412,6 +412,9 @@ func c09Wide(c *core.Ctx) bool {
 }
 
 func (c09) RunCase(c *core.Ctx) {
+	if c.Case%97 == 23 && !w10(c, "C09") {
+		return
+	}
 	if c.Case%100 == 7 && !c09PlaceholderText(c) {
 		return
 	}
